@@ -79,34 +79,78 @@ def norm(lines):
 # --------------------------------------------------------------------------
 # classification of a case (for witnesses / known findings only; the verdict is TLC's)
 
-def _tagclass(kind, t1, t2, cur):
+def _tagflags(kind, t1, t2, cur):
+    """What an If-Match / If-None-Match value holds, relative to the current tag."""
     if kind in ('none', 'star'):
-        return kind
+        return {kind}
     if kind != 'list':
-        return 'malformed'
-    tags = [t for t in (t1, t2) if t]
-    if any(t % 10 in (3, 4) for t in tags):
-        return 'separator'
-    if cur and any(t == cur and t < 10 for t in tags):
-        return 'strong_match'
-    if cur and any(t % 10 == cur % 10 for t in tags):
-        return 'weak_only_match'
-    return 'nomatch'
+        return {'malformed'}
+    f = set()
+    for t in (t1, t2):
+        if not t:
+            continue
+        if t % 10 in (3, 4):
+            f.add('separator')
+        if cur and t == cur and t < 10:
+            f.add('strong_match')
+        elif cur and t % 10 == cur % 10:
+            f.add('weak_only_match')
+    return f or {'nomatch'}
+
+
+def trigger(case, clause):
+    """The input class that sets the failure off, for a clause of the cond part."""
+    cur = case['cur'] or (5 if case['prog'] == 'auto' and case['st'] == 200 else 0)
+    im = _tagflags(case['imk'], case['im1'], case['im2'], cur)
+    nm = _tagflags(case['nmk'], case['nm1'], case['nm2'], cur)
+    safe = case['m'] in ('GET', 'HEAD')
+    ims = case['ims'] if case['lm'] else 'n/a'
+    ius = case['ius'] if case['lm'] else 'n/a'
+    if clause == 'X02.internal_error':
+        if case['prog'] == 'auto' and not case['cur'] and case['st'] == 200:
+            return 'autotags_without_etag'
+    elif clause in ('X02.not_modified_length', 'X02.not_modified_type'):
+        if case['fe'] == 'http':
+            return '304_sent_by_http'
+    elif clause == 'X02.spurious_412':
+        if 'separator' in im and 'weak_only_match' not in im:
+            return 'if_match_tag_with_separator'
+        if ius in ('late', 'alt', 'bad'):
+            return 'ius_not_spelled_like_last_modified'
+        if ius == 'early' and 'none' not in im:
+            return 'ius_early_with_if_match'
+        if not safe and ims == 'equal':
+            return 'ims_on_unsafe_method'
+    elif clause == 'X02.missed_412':
+        if 'weak_only_match' in im:
+            return 'if_match_weak'
+        if not safe and 'weak_only_match' in nm:
+            return 'if_none_match_weak'
+        if not safe and 'separator' in nm:
+            return 'if_none_match_tag_with_separator'
+    elif clause == 'X02.missed_304':
+        if safe and 'weak_only_match' in nm:
+            return 'if_none_match_weak'
+        if safe and 'separator' in nm:
+            return 'if_none_match_tag_with_separator'
+    elif clause == 'X02.spurious_304':
+        if 'weak_only_match' in im:
+            return 'if_match_weak'
+        if safe and ius == 'early' and 'none' in im and 'none' not in nm and 'nomatch' not in nm:
+            return 'ius_early_but_if_none_match_answers'
+        if safe and 'none' not in nm and ims == 'equal':
+            return 'ims_with_if_none_match'
+    return 'other'
 
 
 def witness_of(case, lines, clause):
     if case['part'] == 'cond':
-        cur = case['cur'] or (5 if case['prog'] == 'auto' and case['st'] == 200 else 0)
         st = [ln['code'] for ln in lines if ln['k'] == 'resp']
-        return {'part': 'cond', 'fe': case['fe'], 'prog': case['prog'], 'safe': case['m'] in ('GET', 'HEAD'),
-                'im': _tagclass(case['imk'], case['im1'], case['im2'], cur),
-                'nm': _tagclass(case['nmk'], case['nm1'], case['nm2'], cur),
-                'ims': case['ims'] if case['lm'] else 'n/a', 'ius': case['ius'] if case['lm'] else 'n/a',
-                'status': st[0] if st else 0}
+        return {'part': 'cond', 'prog': case['prog'], 'trigger': trigger(case, clause), 'status': st[0] if st else 0}
     if case['part'] == 'exp':
-        return {'part': 'exp', 'secs': case['secs'], 'day': case['day'], 'force': case['force']}
+        return {'part': 'exp', 'zero': case['secs'] in ('zero', 'tdzero'), 'day': case['day']}
     ln = lines[-1] if lines else {}
-    return {'part': 'gzip', 'ae': case['ae'], 'mime': case['ct'] != 'png', 'code': ln.get('code', 0)}
+    return {'part': 'gzip', 'ae': case['ae'], 'code': ln.get('code', 0)}
 
 
 def nontrivial(case):
@@ -219,7 +263,7 @@ def corrupt(rnd, case, lines):
                 last['xe'] = 'future'
                 last['xd'] = 60
         return out, how
-    how = rnd.choice(['raised', 'drop_answer', 'encoding_without_body'])
+    how = rnd.choice(['raised', 'drop_answer'] if last['code'] == 406 else ['raised', 'drop_answer', 'encoding_without_body'])
     if how == 'raised':
         last['exc'] = 'TypeError'
     elif how == 'drop_answer':
@@ -272,8 +316,10 @@ def run(tier, replay=None):
 
     # 1. the model: exhaustive check of the intended algorithm, the pinned variant, teeth
     jobs = {
-        'cond': lambda: export_cases('MC_CondReq_cond_%s.cfg' % tier, 8, coverage=True),
+        'cond': lambda: export_cases('MC_CondReq_cond_%s.cfg' % tier, 6),
         'cond_pinned': lambda: export_cases('HIST_CondReq_cond_pinned_%s.cfg' % tier, 6),
+        # action coverage is read from a small sample of every block (pinned variant: Crash is reachable there)
+        'cov': lambda: tlc.run_tlc(SPEC, 'CondReq', 'MC_CondReq_cond_cov.cfg', workers=1, coverage=True, jvm_opts=JVM),
         'misc': lambda: export_cases('MC_CondReq_misc.cfg', 1, coverage=True),
         'misc_pinned': lambda: export_cases('HIST_CondReq_misc_pinned.cfg', 1),
     }
@@ -282,7 +328,7 @@ def run(tier, replay=None):
         for d in PINNED_DEFECTS:
             jobs['teeth_' + d] = (lambda d=d: tlc.run_tlc(SPEC, 'CondReq', 'MC_CondReq_def_%s.cfg' % d, workers=2, jvm_opts=JVM))
         jobs['tolerated'] = lambda: tlc.run_tlc(SPEC, 'CondReq', 'MC_CondReq_tolerated.cfg', workers=2, jvm_opts=JVM)
-    with ThreadPoolExecutor(max_workers=4 if quick else 6) as ex:
+    with ThreadPoolExecutor(max_workers=5 if quick else 6) as ex:
         futs = {k: ex.submit(fn) for k, fn in jobs.items()}
         done = {k: f.result() for k, f in futs.items()}
     _tick('tlc models')
@@ -293,7 +339,10 @@ def run(tier, replay=None):
         raise tlc.MachineryError('the tolerated deviation ExactMatchOnly is flagged by the monitor (%s)' % done['tolerated'].violated)
     (cres, ccases), (_, cpinned) = done['cond'], done['cond_pinned']
     (mres, mcases), (_, mpinned) = done['misc'], done['misc_pinned']
-    for res, acts in ((cres, ('Headers', 'CallEtags', 'CallSince', 'CallFile', 'NotModified', 'PreconditionFailed', 'Proceed')),
+    if done['cov'].violated:
+        raise tlc.MachineryError('MC_CondReq_cond_cov.cfg violates %s' % done['cov'].violated)
+    for res, acts in ((done['cov'], ('Headers', 'CallEtags', 'CallSince', 'CallFile', 'NotModified', 'PreconditionFailed',
+                                     'Proceed', 'Crash')),
                       (mres, ('CallExpires', 'CallGzip'))):
         for act in acts:
             if act not in res.coverage or res.coverage[act][1] == 0:
